@@ -196,7 +196,7 @@ pub fn run(ctx: &mut Ctx) {
         let params: Vec<MeanVari> = (0..n * nstate).map(|_| MeanVari(rng.uniform(0.3, 20.0), rng.log_uniform(0.01, 100.0))).collect();
         estimator_case(ctx, &ann, &params, nstate, rate, fperiod, "exhaustive");
     });
-    let n = ctx.n(1500, 80000);
+    let n = ctx.n(4000, 80000);
     ctx.run_cases("estimator-random", n, false, |ctx, rng, idx| {
         let nl = rng.range(1, 30);
         let nstate = rng.range(1, 7);
@@ -267,7 +267,7 @@ pub fn run(ctx: &mut Ctx) {
 
     // ------------------------------------------------ end to end on the bundled voice
     let bundled = env.load_bundled();
-    let n = ctx.n(60, 4000);
+    let n = ctx.n(160, 4000);
     ctx.run_cases("end-to-end", n, false, |ctx, rng, idx| {
         let nl = rng.range(1, if ctx.quick() { 8 } else { 30 });
         let mut e = bundled.clone();
